@@ -197,7 +197,8 @@ def describe_leaf(leaf):
     if isinstance(leaf, list):
         return [describe_leaf(x) for x in leaf]
     if isinstance(leaf, stackscope.Frame):
-        return {"frame_as_leaf": leaf.funcname}
+        name = leaf.funcname
+        return {"frame_as_leaf": int(name[1:]) if name[:1] == "F" and name[1:].isdigit() else name}
     return {"other": repr(leaf)[:80]}
 
 
